@@ -37,9 +37,10 @@ def raw_universe(w: World) -> List[object]:
     uni = lambda *xs: one("DUnion", *xs)
     sla, slb = w.sl("a"), w.sl("b")
     slo = Node(w.c["StringLiteral"].info, {"_literals": frozenset(), "_overflow": True})
+    # ("M1/b": an object with the field names of M1 and other value types)
     return [ABSENT, EMPTY, w.INT, w.FLOAT, w.BOOL, w.NULL, sla, slb, slo, w.PS1, w.PS2, ModelDict("M1"), ModelDict("M2"),
             lst(w.UNKNOWN), lst(w.INT), lst(sla), lst(w.NULL), lst(uni(w.INT, w.NULL)), lst(ModelDict("M1")),
-            dct(w.UNKNOWN), dct(w.INT)]
+            lst(uni(w.INT, ModelDict("M1"))), lst(uni(w.INT, ModelDict("M1/b"))), dct(w.UNKNOWN), dct(w.INT)]
 
 
 def optimised_universe(w: World) -> List[object]:
